@@ -263,3 +263,10 @@ package parse
 //@ func (*IdArg).Parse$1
 //@   nopanic
 //@   ensures result == isAlpha(c)
+
+// pattern (RFC 6020 9.4.6): XSD regular expressions are implicitly anchored at both ends of the whole
+// value, so the compiled expression is "^(" pattern ")$" with no flags in front.
+//@ func (*PatternArg).Parse
+//@   requires a != nil
+//@   modifies a.Regexp
+//@   ensures implies(result == nil, a.Regexp != nil && hasprefix(re_source(a.Regexp), "^(") && hassuffix(re_source(a.Regexp), ")$"))
